@@ -176,6 +176,10 @@ func runC08(r *Report, tier string) {
 	checkLabelLookups(r, "R13.6", "C08")
 	checkEnvelopeRawNil(r, "R12.3")
 	checkDecoderLimits(r, "R07.3")
+	// decodes to an equivalent value: the structure decoders store the wire
+	// slots themselves (an attached empty payload stays attached)
+	r.rule("R09.1", "(shared with C09) every structure decoder stores the same-named wire slots unchanged.")
+	checkDecoderSlots(r, "R09.1")
 	// what the unprotected encoder can emit under labels 7 / 11 (one
 	// countersignature or a list of any length) is not refused by head byte
 	if cs := P.countersigValueDecoder(); cs != nil {
